@@ -146,6 +146,7 @@ func (c *Checker) checkC16Msg(msg sdk.Msg, ok bool) {
 	switch m := msg.(type) {
 	case *data.MsgRegisterResolver:
 		c.hit("C16")
+		c.hit("C08")
 		r := c.pre.Resolvers[m.ResolverId]
 		if r == nil {
 			if ok {
@@ -160,6 +161,7 @@ func (c *Checker) checkC16Msg(msg sdk.Msg, ok bool) {
 			c.Counters["c16_register_by_non_manager"]++
 			if ok {
 				c.report("C16", "non-manager-registered", fmt.Sprintf("%s registered data to resolver %d managed by %s", signer, r.ID, r.Manager), nil)
+				c.report("C08", "role:resolver-manager", fmt.Sprintf("%s registered data to resolver %d managed by %s", signer, r.ID, r.Manager), nil)
 			}
 		}
 	case *data.MsgAnchor:
